@@ -52,20 +52,20 @@ def make_var_file(path, shape, arr, fill=None, vtype=None):
 
 
 def read_impl(path, field, type_name, missing):
+    """real NetCDF EEMSRead, evaluated the way a program evaluates it (arguments as written, cleaned by validate_params, body run by Command.run)"""
     from mpilot.libraries.eems.netcdf.io import EEMSRead
     from mpilot.arguments import Argument
-    from mpilot import params
-    from mpilot.exceptions import MPilotError
+    from mpilot.exceptions import MPilotError, UnexpectedError
     args = [Argument("InFileName", path, 3), Argument("InFieldName", field, 4)]
-    kw = {"InFileName": path, "InFieldName": field}
     if type_name is not None:
         args.append(Argument("DataType", type_name, 5))
-        kw["DataType"] = EEMSRead.inputs["DataType"].clean(type_name, None, 5)
     if missing is not None:
-        kw["MissingValue"] = missing
+        args.append(Argument("MissingValue", missing, 6))
     try:
         with numpy.errstate(all="ignore"):
-            return ("ok", EEMSRead("R", args, lineno=2).execute(**kw))
+            return ("ok", EEMSRead("R", args, lineno=2).result)
+    except UnexpectedError as e:
+        return ("raw", type(e.exc).__name__, str(e.exc)[:200])
     except MPilotError as e:
         try:
             text = str(e)
